@@ -685,7 +685,8 @@ def poscarNums (s : Sys) (cartesian : Bool) (scale : Rat) : PoscarNums :=
     single word here. -/
 def writePoscarDoc (s : Sys) (header : List String) (symbols : Option (List String)) (coordstyle : String)
     (scale : Rat) (f : Fmt) : Res Doc := do
-  if scale = 0 then throw "value"
+  -- a universal scaling factor that is negative is, by the POSCAR rules, the cell VOLUME, not a multiplier: refused
+  if scale ≤ 0 then throw "value"
   if s.natoms = 0 then throw "value"
   let cart : Bool := match coordstyle.toList with
     | c :: _ => c = 'c' || c = 'C' || c = 'k' || c = 'K'
